@@ -12,7 +12,8 @@ if ! git -C $WT apply "$S" 2>/dev/null; then
   if ! git -C $WT apply -3 "$S" 2>/dev/null; then echo "SEED $1 does not apply"; cleanup; exit 4; fi
   git -C $WT reset -q
 fi
-cd /verif && VERIF_REPO=$WT ./check $2 --tier ${3:-quick} > /tmp/try_seed_$1_$2.out 2>&1; rc=$?
-cleanup
+OUT=/tmp/tryseed-out-$$; mkdir -p $OUT
+cd /verif && VERIF_OUT=$OUT VERIF_REPO=$WT ./check $2 --tier ${3:-quick} > /tmp/try_seed_$1_$2.out 2>&1; rc=$?
+cleanup; rm -rf $OUT
 echo "SEED $1 check $2 -> exit $rc"; grep -E "^(VIOLATION|INCONCLUSIVE|OK|KNOWN)" /tmp/try_seed_$1_$2.out | cut -c1-260 | head -8
 exit 0
